@@ -69,7 +69,9 @@ def jEvent (e : Event) : Json :=
 bar_width|null, bar_char|null, empty_char|null, progress_char|null, format|null, message|null,
 t0, ops:[{op, arg, t}]}` (operations and mid-run setters, see `parseCall`) -> per call the stream writes, the getters and the exception class; `hyp`: the
 deciders of the hypotheses of the theorems on this configuration and history; `screen` (ANSI, not quiet; else null):
-the rows of the terminal after the history, whether every frame fits its format (`framesFitB`), the lines of the latest write.
+the rows of the terminal after the history, whether every frame fits its format (`framesFitB`), the lines of the latest write;
+`hyp.ml_clean`: the inputs are clean in the multi-line sense (`mlCleanCfgB`, `mlCleanCallsB`: format without CR / ESC, bar characters
+and messages without line break / CR / ESC, setter arguments included) - by `Props.C16.frames_fit_clean_dec` this implies `fits`.
 `c16.roundq {a, b}` -> the correctly rounded quotient (self-test of the float model). -/
 def handle (m : String) (j : Json) : Option (R Json) :=
   match m with
@@ -113,6 +115,8 @@ def handle (m : String) (j : Json) : Option (R Json) :=
       return Json.mkObj [("events", jList jCEvent evs), ("screen", screen),
         ("hyp", Json.mkObj [("single", .bool (singleCharsB c)), ("bar_width_ok", .bool (barWidthOkB c)),
                             ("clean_cfg", .bool (cleanCfgB c)), ("clean_ops", .bool (cleanCallsB calls')),
+                            -- the hypotheses of Props.C16.frames_fit_clean_dec (multi-line formats): they imply `fits`
+                            ("ml_clean", .bool (mlCleanCfgB c && mlCleanCallsB calls')),
                             ("no_err", .bool (noErrCB evs))])]
   | "c16.roundq" => some do
       let a ← fNat j "a"
